@@ -210,6 +210,12 @@ func c01Alt(full bool) []string {
 					p3 := pats[(i*5+j*11+k)%len(pats)]
 					out = append(out, "[.[] as "+p1+" ?// "+p2+" ?// "+p3+" | try ("+b+") catch \"caught\"]")
 				}
+				// halt (or an error) raised BEHIND a try whose body holds the alternatives: it unwinds through the body's forks
+				if k == 0 && (full || (i+j)%2 == 0) {
+					w := []string{"try (%s)", "try (%s) catch \"c\"", "try (try (%s))", "(%s)?", "first(try (%s))", "try ((%s), 7)"}[(i+j)%6]
+					alt := fmt.Sprintf(w, ". as "+p1+" ?// "+p2+" | [$a, $b, $c]")
+					out = append(out, ".[] | "+alt+" | ., halt", ".[1] | "+alt+" | halt_error(2)", "[.[] | "+alt+" | ., (select(.[1] == null) | error(\"behind\"))]?")
+				}
 			}
 		}
 	}
